@@ -202,7 +202,12 @@ class StubContext(ChainContext):
         frame_word = [34482, 0, 1, 4310, 8620, 2 ** 20][hb[1] % 6]
         frame_pool_cost = [340000000, 0, 170000000][hb[2] % 3]
         frame_minor = hb[3] % 3
-        self.frame = {"min_utxo": frame_min_utxo, "coins_per_utxo_word": frame_word, "min_pool_cost": frame_pool_cost}
+        # the NETWORK is a configuration axis too: every address of the scenario (wallet, outputs, change, reward accounts)
+        # is built for the network the context reports; a quarter of the scenarios run on mainnet
+        global NET
+        NET = Network.MAINNET if (sc.get("net") == 1 or (sc.get("net") is None and hb[4] % 4 == 0)) else Network.TESTNET
+        self.frame = {"min_utxo": frame_min_utxo, "coins_per_utxo_word": frame_word, "min_pool_cost": frame_pool_cost,
+                      "network": int(NET.value)}
         self._pp = ProtocolParameters(
             min_fee_constant=frac(p["b"]) if frac(p["b"]).denominator != 1 else int(frac(p["b"])),
             min_fee_coefficient=frac(p["a"]) if frac(p["a"]).denominator != 1 else int(frac(p["a"])),
